@@ -55,7 +55,7 @@ TIERS = {
 # every link is still visited; fewer probes per element)
 LIGHT = dict(k_tri=2, k_cl=1, k_seg=2, k_band=2, k_drv=100)
 # the medium maps added to the quick tier (intersections, sidewalks, shoulders)
-QUICK_EXTRA = ("LGSVL/borregasave.xodr", "CARLA/Town02.xodr", "CARLA/Town01.xodr")
+QUICK_EXTRA = ("LGSVL/borregasave.xodr", "CARLA/Town02.xodr", "CARLA/Town01.xodr", "misc/Issue189.xodr")
 N_VARIANT_MAPS = 6
 # protocol exploration on the smallest map with lanes (parse 0.01 s, cache 18 KB): the
 # protocol does not depend on the content; cached-vs-parsed equivalence of rich networks is
